@@ -148,6 +148,11 @@ def explore_part(args):
                 subsets = [names_all] if form in ("dir", "glob") else ([[n] for n in names_all] + ([names_all] if len(names_all) > 1 else []))
                 for names in subsets:
                     for mode in ("check", "stdout", "files"):
+                        # multi-file operations are also run on a single worker thread (one read buffer
+                        # for all files, in a deterministic order)
+                        if len(names) > 1 and form != "glob":
+                            step(m, fam, state, form, names, mode, hist, threads=1)
+                            fam.transitions += 1
                         ok, succ = step(m, fam, state, form, names, mode, hist)
                         fam.transitions += 1
                         if mode == "files" and ok and succ is not None:
@@ -216,13 +221,13 @@ def stdin_ops(m, fam, content, hist):
         fam.fail("C16", "output-despite-error", f"stdin->stdout exited {rc} yet printed {out[:80]!r}", case)
 
 
-def step(m, fam, state, form, names, mode, hist):
+def step(m, fam, state, form, names, mode, hist, threads=None):
     m.materialise(state)
     args = m.args_for(form, names, mode)
-    rc, out, err = cli.run(args, hermetic_cfg=m.sb.empty_cfg)
+    rc, out, err = cli.run(args, hermetic_cfg=m.sb.empty_cfg, env=({"RAYON_NUM_THREADS": str(threads)} if threads else None))
     after = m.observe(state)
     targets = m.targets(form, state, names)
-    case = {"oracle": "c16", "op": mode, "form": form, "names": names, "state": describe(state),
+    case = {"oracle": "c16", "op": mode, "form": form, "names": names, "threads": threads, "state": describe(state),
             "state_hex": {n: (c.hex() if isinstance(c, bytes) and len(c) < 2000 else None) for n, c in state}, "history": hist}
     expected = {}
     failing = set()
@@ -314,7 +319,7 @@ def replay(case):
                     state.append((n, (d,)))
                 else:
                     state.append((n, BIG))
-            step(m, fam, tuple(state), case["form"], case["names"], case["op"], [])
+            step(m, fam, tuple(state), case["form"], case["names"], case["op"], [], threads=case.get("threads"))
     for v in fam.stats["violations"]:
         print(f"REPLAY: {v['property']} {v['signature']} - {v['detail'][:300]}")
     if fam.stats["violation_count"]:
